@@ -23,11 +23,18 @@
 //       key of that part goes through its importing proxy, then the key is read back; then the scanners run, commit, final reads.
 //       -> "multi ok|timeout mode= parts= ndst= committed= client_ops= errors= del_replies=<r;..> reads=<r;..> final_reads=<r;..> trace="
 //
+//   mkey conns= active= out= [absent=0|1]
+//       directed: multi-key commands through the IMPORTING proxy while the scanner is held at its first SCAN (every key still on
+//       the source): EVAL DELALL/GETALL/SETALL with 1, 2, 3 keys WITH and WITHOUT trailing ARGV, multi-key DEL, EXISTS, MGET, MSET,
+//       each on its own hash-tag group; every key of the group is read back right after the command, after the scanner ran and
+//       after the commit.  `mig ... mk=1` adds multi-key commands to the random traffic.
+//       -> "mkey ok cases=<n> replies=<r;..> bad_reads=<n> trace="   (bad_reads: read-backs that contradict the command, informational)
+//
 // Topology (nothing real is opened): P1 127.0.1.1:7001 / R1 127.0.1.1:6001 (source), P2 127.0.2.1:7002 / R2 127.0.2.1:6002
 // (destination); see net.rs for the fake network, store.rs for the storing Redis stand-in, scen.rs for the scenarios and
 // the trace format (JSON lines: meta, epoch, inv, hop, rep, redis, p2p, phase, commit, hold, final; every event has a
 // global `seq` and a wall-clock `us` that is informational only).
-use crate::scen::{run_collide, run_mig, run_multi, run_witness, Params};
+use crate::scen::{run_collide, run_mig, run_mkey, run_multi, run_witness, Params};
 use crate::util::bulk_cmd;
 use undermoon::protocol::RespPacket;
 use undermoon::proxy::command::{requires_blocking_migration, Command};
@@ -59,6 +66,7 @@ pub fn run_case(_rt: &tokio::runtime::Runtime, line: &str) -> String {
         "witness" => run_witness(&Params::parse(&toks[1..])),
         "collide" => run_collide(&Params::parse(&toks[1..])),
         "multi" => run_multi(&Params::parse(&toks[1..])),
+        "mkey" => run_mkey(&Params::parse(&toks[1..])),
         k => format!("unknown-kind {}", k),
     }
 }
